@@ -16,6 +16,10 @@ def _call(arg):
     try:
         mod = importlib.import_module(modname)
         return getattr(mod, fname)(case)
+    except cell.NonTermination as e:
+        pid = getattr(mod, 'PID', '?')
+        return {'verdict': 'viol', 'sig': '%s|command-does-not-terminate' % pid, 'klass': 'does-not-terminate',
+                'nontrivial': 'does-not-terminate', 'detail': {'what': str(e), 'case': case if isinstance(case, dict) else None}}
     except cell.HarnessError as e:
         return {'harness': str(e)}
     except Exception:
